@@ -131,6 +131,47 @@ def judge_object(acc, f, cs, part):
     acc.sample(dict(case, codes=cs[:3]), 1)
 
 
+def judge_containers(acc, f, ovf, part):
+    """Python integers around the 64-bit machine limits inside every kind of container (NumPy would pick uint64 / float64 / object
+    for them depending on the mix), stored as codes (raw=True) and as integer values"""
+    sets = {'u64_band': [(1 << 63) + 1, (1 << 63), (1 << 64) - 1, (1 << 63) + 7],
+            'u64_band+neg': [(1 << 63) + 1, -1, 3, 4],
+            'beyond': [(1 << 64), 1, -(1 << 63) - 1, 0],
+            'i64_edge': [(1 << 63) - 1, -(1 << 63), (1 << 62) + 1, -3],
+            'bounds': [f.hi, f.lo, f.hi - 1, 1]}
+    for sname, vals in sets.items():
+        conts = {'list': list(vals), 'tuple': tuple(vals), 'nlist': [vals[:2], vals[2:]], 'ntuple': (tuple(vals[:2]), tuple(vals[2:])),
+                 'ltuple': [tuple(vals[:2]), tuple(vals[2:])], 'objarr2d': np.array(vals, dtype=object).reshape(2, 2),
+                 'nlist3d': [[vals[:2]], [vals[2:]]]}
+        for cname, cont in conts.items():
+            for mode in ('raw', 'value'):
+                rs = [v << f.n_frac if mode == 'value' else v for v in vals]
+                if mode == 'value' and max(abs(r).bit_length() for r in rs) > 4 * f.n_word + 8:
+                    continue
+                exp = [overflow_code(r, f, ovf) for r in rs]
+                ef = (any(r > f.hi for r in rs), any(r < f.lo for r in rs))
+                case = {'part': part, 'container': cname, 'set': sname, 'fmt': list(f), 'overflow': ovf, 'mode': mode}
+                acc.evaluations += 4
+                acc.transitions += 1
+                acc.nontrivial += 4
+                acc.dim('container', cname, 4)
+                try:
+                    x = Fxp(cont, f.signed, f.n_word, f.n_frac, overflow=ovf, raw=(mode == 'raw'))
+                    got, fl = codes(x), flags(x)[:2]
+                except Exception as e:
+                    acc.violation('exception', case, '%s %s: %s of %s (%s) raised %r' % (f.dtype, ovf, cname, sname, mode, e),
+                                  {'part': part, 'route': 'container', 'container': cname, 'mode': mode})
+                    continue
+                if got != exp or fl != ef:
+                    i = [j for j in range(4) if j >= len(got) or got[j] != exp[j]]
+                    i = i[0] if i else 0
+                    acc.violation('store', case, '%s %s: %s holding %s (%s): element %d stored as %s flags %s, expected %d %s'
+                                  % (f.dtype, ovf, cname, sname, mode, vals[i], got[i] if i < len(got) else None, fl, exp[i], ef),
+                                  {'part': part, 'route': 'container', 'container': cname, 'mode': mode})
+                else:
+                    acc.outcome('container_ok')
+
+
 def judge_history(acc, f, part):
     """store -> reset -> resize(n_word') -> store: indicator == (n_word >= 64) in every state"""
     for nw2 in RESIZE_TO:
@@ -181,6 +222,10 @@ def judge_derived(acc, f, part):
     except Exception as e:
         acc.violation('exception', case, '%s: deriving objects raised %r' % (f.dtype, e), {'part': part, 'aspect': 'derived'})
         return
+    wt = w.deepcopy()
+    wt.config.shifting = 'trunc'
+    ders.update({'ws|2': ws | 2, 'ws^1': ws ^ 1, 'w.T': w.T, 'w.flatten': w.flatten(), 'w>>1(trunc)': wt >> 1, 'ws.like(ws)': ws.like(ws),
+                 'w.deepcopy': w.deepcopy(), '-ws': -ws if f.signed else +ws})
     for name, o in ders.items():
         acc.evaluations += 1
         acc.transitions += 1
@@ -193,6 +238,29 @@ def judge_derived(acc, f, part):
                           % (f.dtype, name, o.status.get('extended_prec'), o.dtype, getattr(o.val, 'dtype', type(o.val))), {'part': part, 'aspect': 'derived', 'how': name})
         else:
             acc.outcome('derived_ok')
+    # the derived objects are then mutated (an overflowing store, a resize below 64 bits, a reset): the sources keep their own record
+    before = (dict(ws.status), dict(w.status), codes(ws), codes(w), ws.n_word, w.n_word)
+    for name, o in ders.items():
+        if name in ('w[0:2]',):
+            continue            # indexing is the documented view
+        acc.transitions += 3
+        acc.evaluations += 1
+        try:
+            big = (1 << (o.n_word + 3)) + 1
+            o.set_val(big if not isinstance(o.val, np.ndarray) or o.val.ndim == 0 else np.full(o.val.shape, big, dtype=object), raw=True)
+            o.resize(n_word=16)
+            o.set_val(0.3)
+        except Exception as e:
+            acc.violation('exception', dict(case, how=name, mutate=True), '%s: mutating the object derived by %s raised %r' % (f.dtype, name, e),
+                          {'part': part, 'aspect': 'derived_mutation', 'how': name})
+            continue
+        after = (dict(ws.status), dict(w.status), codes(ws), codes(w), ws.n_word, w.n_word)
+        if after != before:
+            acc.violation('indicator', dict(case, how=name, mutate=True), '%s: after an overflowing store / resize(n_word=16) / inexact store on the object derived by %s '
+                          'the source reports %s (before: %s)' % (f.dtype, name, after[:2], before[:2]), {'part': part, 'aspect': 'derived_mutation', 'how': name})
+            before = after
+        else:
+            acc.outcome('derived_mutation_ok')
 
 
 def bounds(tier, seed):
@@ -245,6 +313,8 @@ def run_shard(sh):
                 judge_code(acc, f, ovf, c, 'bin_raw', 'W')
                 judge_code(acc, f, ovf, c, 'hex_raw', 'W')
         judge_object(acc, f, inr, 'W')
+        for ovf in ('saturate', 'wrap'):
+            judge_containers(acc, f, ovf, 'K')
         judge_history(acc, f, 'H')
         judge_derived(acc, f, 'H')
     return acc
@@ -257,6 +327,9 @@ def replay(case):
     if case.get('derived'):
         judge_derived(acc, f, case['part'])
         return [v for v in acc.violations if v['case'].get('how') == case.get('how')]
+    if case.get('container'):
+        judge_containers(acc, f, case['overflow'], case['part'])
+        return [v for v in acc.violations if all(v['case'].get(k) == case.get(k) for k in ('container', 'set', 'mode'))]
     if 'resize_to' in case:
         judge_history(acc, f, case['part'])
         return [v for v in acc.violations if v['case'].get('resize_to') == case['resize_to']]
